@@ -145,6 +145,20 @@ example : (encode (.set [.flt .nan, .flt (.inf true), .flt .negZero, .flt (.fin 
     = .ok (.set [.flt .nan, .flt (.inf true), .flt .negZero, .flt (.fin 1 1)]) :=
   roundtrip_tree _ (by simp [Encodable, EncodableList])
 
+/-! ### Finding `state-holds-unserialisable-builtin` (open): values of built-in types without an encoder branch
+
+A Colang expression can produce — and a flow variable keep — a `bytes` (`"abc".encode()`), a dict view (`$d.keys()`) or a bound
+built-in method (`$l.append`); `encode_to_dict` has no branch for them (`PV.other cls`).  Full statement that is FALSE of the code:
+`∀ v reachable, (encode v).isOk`.  Proved instead: the counterexample, and `encode_total_iff` (the encoder succeeds exactly on
+`EncShape`, which excludes exactly the values containing an `.other`). -/
+theorem unserialisable_builtin_as_is_counterexample (cls : String) (uid : String) :
+    encode (.data "FlowState" [(.str "uid", .str uid), (.str "context", .dict [(.str "keys", .other cls)])])
+      = .error (.unhandledType cls)
+    ∧ EncShape (.data "FlowState" [(.str "uid", .str uid), (.str "context", .dict [(.str "keys", .other cls)])]) = false := by
+  constructor
+  · simp [encode, encodeKvs, encodeVals, allStr, Key.isStr, keyStr, bind, Except.bind]
+  · simp [EncShape, EncShapeKvs, EncShapeVals]
+
 /-- What a save/restore returns in general — on every value the encoder accepts and whose classes the
     decoder knows (`Decodable`): the value with `functools.partial` dropped and dataclass/RailsConfig
     field names stringified (`norm`).  This makes the lossy region of the round trip explicit:
